@@ -496,10 +496,13 @@ class JSONVisitor:
             self.diagnostics.append(node["diagnostic"])
             raise tinydocutils.nodes.SkipNode()
         else:
-            lineno = node.get_line()
-            raise NotImplementedError(
-                f"Unknown node type: {node.__class__.__name__} at {self.docpath}:{lineno}"
+            # Markup we have no representation for (option lists, doctest blocks,
+            # citations, ...): report it and skip the node and its children rather
+            # than aborting the whole page.
+            self.diagnostics.append(
+                UnexpectedNodeType(node.__class__.__name__, None, node.get_line())
             )
+            raise tinydocutils.nodes.SkipNode()
 
     def dispatch_departure(self, node: tinydocutils.nodes.Node) -> None:
         if len(self.state) == 1 or isinstance(node, tinydocutils.nodes.definition):
